@@ -789,6 +789,11 @@ def helper_histories(ctx, rng, sg, isc, reps):
                         ctx.fail("C13:helper.%s.binding_calls_%d" % (t, min(len(mod.log), 3)), "%s of user %d on a device from init_device: the binding was called %d times (%s)"
                                  % (c.facade, user, len(mod.log), "%s: %s" % (type(err).__name__, err) if err else "no error"), dict(wit, method=c.facade, args=a), exc=err)
                         break
+                    ev = mod.log[0]
+                    if ev.get("file_closed") or ev.get("connected") is False:
+                        ctx.fail("C13:helper.%s.sent_on_released_handle" % t, "%s of user %d went to a handle that an earlier user had released (%s): the real binding cannot deliver it"
+                                 % (c.facade, user, "closed file" if t == "sgio" else "disconnected session"), dict(wit, method=c.facade, args=a))
+                        break
                 try:
                     if how == "with":
                         with s:
